@@ -197,6 +197,15 @@ def enum_structural():
         for n in (1, 2, 3):
             for r in (8, 9, 16, 17):
                 yield ('tile_many',), {'op': 'tile', 'r': r, 'in': _src(kind, 1, n)}
+        # a deep pipeline (a training script adds stage after stage): 60 stages over a small source
+        for n in (0, 3):
+            node = _src(kind, 1, n)
+            for d in range(60):
+                node = [{'op': 'map', 'fn': d % 4, 'in': node},
+                        {'op': 'slice', 'form': {'k': 'slice', 'a': None, 'b': None, 'c': -1}, 'in': node},
+                        {'op': 'copy', 'freeze': False, 'in': node},
+                        {'op': 'cache', 'lazy': True, 'in': node}][d % 4]
+            yield ('deep_chain',), node
         bounds = [None] + list(range(-6, 7))
         for a in bounds:
             for b in bounds:
